@@ -160,7 +160,7 @@ func (p *Point) Mul(s *big.Int, q *Point) *Point {
 		}
 		exp = exp.Add(exp, exp)
 	}
-	p = resProj.Affine()
+	*p = *resProj.Affine()
 	return p
 }
 
@@ -241,9 +241,13 @@ func (p *Point) Compress() [32]byte {
 // Decompress a compressed Point into p, and also returns the decompressed
 // Point.  Returns error if the compressed Point is invalid.
 func (p *Point) Decompress(leBuf [32]byte) (*Point, error) {
-	var sign bool
-	sign, p.Y = UnpackSignY(leBuf)
-	return PointFromSignAndY(sign, p.Y)
+	sign, y := UnpackSignY(leBuf)
+	res, err := PointFromSignAndY(sign, y)
+	if err != nil {
+		return nil, err
+	}
+	*p = *res
+	return p, nil
 }
 
 // PointFromSignAndY returns a Point from a Sign and the Y coordinate
